@@ -7,7 +7,7 @@ from common import *
 
 IMPORTS = ("From Alator Require Import Model.Num Model.Quirks Model.Broker Model.Perf Check.Eqb Check.PerfCheck.")
 PASPECTS = {0: "kind", 1: "returns", 2: "ret", 3: "cagr", 4: "vol", 5: "mdd", 6: "sharpe", 7: "dd_dates",
-            8: "extremes", 9: "vectors"}
+            8: "extremes", 9: "vectors", 10: "frequency"}
 P_KIND, P_RETURNS, P_RET, P_CAGR, P_VOL, P_MDD, P_SHARPE, P_DDDATES, P_EXTREMES, P_VECTORS = [1 << i for i in range(10)]
 PERF_FLAGS = ["q_maxdd_last_positions"]
 
@@ -45,7 +45,8 @@ def gen_series(rng, malformed=False):
             vv = rng.choice([0.0, float("nan"), -v, float("inf")])
         snaps.append([date, f2b(vv), f2b(ncf), f2b(infl)])
         date += 86400
-    return dict(snapshots=snaps, freq="Daily")
+    # the annualised figures exist for daily data only: the two other frequencies make calculate panic
+    return dict(snapshots=snaps, freq=rng.choice(["Daily"] * 9 + ["Second", "Fixed"]))
 
 
 def py_returns(snaps):
@@ -149,7 +150,9 @@ def g_output(o):
 def g_case(sc, tr, table):
     snaps = gl([gc("mkSnap", gz(s[0]), gf(s[1]), gf(s[2]), gf(s[3])) for s in sc["snapshots"]])
     obs = "None" if "panic" in tr else "(Some %s)" % g_output(tr["out"])
-    return gc("mkPCase", g_table(table), snaps, obs)
+    freq = {"Daily": "FDaily", "Second": "FSecond"}.get(sc.get("freq", "Daily"), "FFixed")
+    fname = gs("" if "panic" in tr else tr["out"]["frequency"])
+    return gc("mkPCase", g_table(table), snaps, obs, freq, fname)
 
 
 # ---- direct readings ------------------------------------------------------------------------------
@@ -158,7 +161,7 @@ def g_case(sc, tr, table):
 def in_domain(sc):
     """C14/C15 domain: >= 2 snapshots, finite positive values, capital positive, inflation > -1"""
     snaps = sc["snapshots"]
-    if len(snaps) < 2:
+    if len(snaps) < 2 or sc.get("freq", "Daily") != "Daily":
         return False
     vals = [b2f(s[1]) for s in snaps]
     if any(math.isnan(v) or math.isinf(v) or v <= 0 for v in vals):
@@ -245,7 +248,7 @@ def oracle_c15(sc, tr):
 
 
 ORACLES = {"C14": oracle_c14, "C15": oracle_c15}
-PPROJ = {"C14": P_KIND | P_RETURNS | P_RET | P_CAGR | P_VOL | P_SHARPE | P_EXTREMES | P_VECTORS,
+PPROJ = {"C14": P_KIND | P_RETURNS | P_RET | P_CAGR | P_VOL | P_SHARPE | P_EXTREMES | P_VECTORS | (1 << 10),
          "C15": P_KIND | P_MDD | P_DDDATES | P_RETURNS}
 
 
